@@ -179,6 +179,37 @@ impl Prop for C10 {
         // E: many rectangles / many updates
         cs.push(Case { pdus: vec![Pdu { updates: vec![Update::Bitmap((0..200).map(|k| rect(k, (k % 7) as usize)).collect())], long_form: true, first_byte: 0 }], direct: false, coalesced: false, block: "many" });
         cs.push(Case { pdus: vec![Pdu { updates: (0..300).map(|k| if k % 3 == 0 { Update::Bitmap(vec![rect(k, 2)]) } else { fastpath::other_update((k % 16) as u8) }).collect(), long_form: true, first_byte: 0 }], direct: false, coalesced: false, block: "many" });
+        // D2: long-form PDUs whose TOTAL length sits on and around every multiple of 256 up to 2 KiB, and around 4 KiB,
+        // 16 KiB and the 15-bit limit (one rectangle, data sized to hit the total exactly)
+        {
+            let overhead = framing::fastpath(0, &fastpath::updates_payload(&[Update::Bitmap(vec![rect(1, 0)])]), true).len();
+            let mut totals: Vec<usize> = vec![];
+            for k in 1..=8usize {
+                totals.extend([k * 256 - 1, k * 256, k * 256 + 1, k * 256 + 2, k * 256 + 3]);
+            }
+            for base in [0x1000usize, 0x4000, 0x7F00] {
+                totals.extend([base - 1, base, base + 1, base + 2, base + 3]);
+            }
+            totals.extend([0x7FFD, 0x7FFE, 0x7FFF]);
+            for t in totals {
+                if t >= overhead {
+                    cs.push(Case { pdus: vec![Pdu { updates: vec![Update::Bitmap(vec![rect(3, t - overhead)])], long_form: true, first_byte: 0 }, Pdu { updates: vec![Update::Bitmap(vec![rect(4, 1)])], long_form: false, first_byte: 0 }], direct: false, coalesced: true, block: "total-length" });
+                }
+            }
+        }
+        // E2: counts around and above 1024 / 2048 (rectangles with no or two data bytes so that the PDU fits a frame;
+        // larger ones are handed to the PDU reader directly)
+        for n in [1023u16, 1024, 1025, 1500, 1800] {
+            cs.push(Case { pdus: vec![Pdu { updates: vec![Update::Bitmap((0..n).map(|k| rect(k, 0)).collect())], long_form: true, first_byte: 0 }], direct: false, coalesced: false, block: "many" });
+        }
+        for n in [2047u16, 2048, 2049, 3000] {
+            cs.push(Case { pdus: vec![Pdu { updates: vec![Update::Bitmap((0..n).map(|k| rect(k, 2)).collect()), Update::Bitmap(vec![rect(7, 3)])], long_form: true, first_byte: 0 }], direct: true, coalesced: false, block: "many-direct" });
+        }
+        for n in [1023usize, 1024, 1025, 2049, 5000] {
+            let mut ups: Vec<Update> = (0..n).map(|k| fastpath::other_update([fastpath::UPD_SYNCHRONIZE, fastpath::UPD_PTR_NULL, fastpath::UPD_PTR_DEFAULT][k % 3])).collect();
+            ups.push(Update::Bitmap(vec![rect(1, 2), rect(2, 0), rect(3, 4)]));
+            cs.push(Case { pdus: vec![Pdu { updates: ups, long_form: true, first_byte: 0 }], direct: n > 4000, coalesced: false, block: "many" });
+        }
         self.cases = cs;
         Ok(())
     }
@@ -204,7 +235,7 @@ impl Prop for C10 {
         json!({"idx": idx, "block": c.block, "direct": c.direct, "pdus": brief, "forms": c.pdus.iter().map(|p| (p.long_form, p.first_byte)).collect::<Vec<_>>()})
     }
     fn rule(&self) -> String {
-        "cases = sequences of fast-path output PDUs delivered to a really activated client (raw stack) through RdpClient::read; PDUs of 0..3 updates over an alphabet of 19 updates (bitmap updates with 0,1,2,3 rectangles, with/without compression header, and 13 non-bitmap/unknown update codes); sequences of <=2 (<=3) PDUs, delivered one frame at a time (lock step) and all at once in one segment before the first read (both length forms, so that an empty PDU of either form is followed by more PDUs); every rectangle field at {0,1,0x7FFF,0xFFFF} one at a time and all-max, depths x flag combinations x data lengths {0,1,2,255,256}, short and long length forms, reserved header bits; data lengths up to the 15-bit frame limit and beyond it (0x7FFF..0xFFEC) through global::Client::read directly. Oracle: callback sequence == reference parser's rectangle list (count, order, nine fields, data). Non-trivial: >= 2 updates in total or a non-default field.".into()
+        "cases = sequences of fast-path output PDUs delivered to a really activated client (raw stack) through RdpClient::read; PDUs of 0..3 updates over an alphabet of 19 updates (bitmap updates with 0,1,2,3 rectangles, with/without compression header, and 13 non-bitmap/unknown update codes); sequences of <=2 (<=3) PDUs, delivered one frame at a time (lock step) and all at once in one segment before the first read (both length forms, so that an empty PDU of either form is followed by more PDUs); every rectangle field at {0,1,0x7FFF,0xFFFF} one at a time and all-max, depths x flag combinations x data lengths {0,1,2,255,256}, short and long length forms, reserved header bits; long-form PDUs whose total length is k*256-1..k*256+3 (k=1..8) and around 4 KiB / 16 KiB / the 15-bit limit; 1023..3000 rectangles in one update and 1023..5000 updates in one PDU; data lengths up to the 15-bit frame limit and beyond it (0x7FFF..0xFFEC) through global::Client::read directly. Oracle: callback sequence == reference parser's rectangle list (count, order, nine fields, data). Non-trivial: >= 2 updates in total or a non-default field.".into()
     }
     fn assumptions(&self) -> Vec<String> {
         vec!["scope as in the statement: unfragmented, uncompressed updates (fragmentation and compression bits of the update header are 0); numberRectangles consistent with the rectangles present".into()]
